@@ -75,7 +75,7 @@ def check(ctx):
             is_iter_end = bool(vs) and "next" in show(vs[0]) and vs[1].get(0, vs[2]) == y
             se = util.sentinel_edges(body, dg, x)
             is_sentinel = se is not None and se[0] == y and se[0] != se[1]
-            good = good and (is_iter_end or is_sentinel)
+            good = good and (is_iter_end or is_sentinel or util.counter_bound_exit(body, dg, x, y))      # (hand-written index loop: `while i < MAX_STREAMS`)
         ctx.ob("R07.2", f"{k}|loop-ends-only-at-end-of-list", good and bool(exits), body.loc(h), "the sweep stops only when the list is exhausted or at the u32::MAX sentinel (no early break)")
         ctx.ob("R07.2", f"{k}|cancels-live-entries", util.on_live_side_of_sentinel_tests(body, dg, cb, body.loops[h]), body.loc(cb), "the cancel happens where the entry is a stream id, not the sentinel")
         lo, hi = util.count_per_iteration(body, h, lambda b: b == cb)
